@@ -53,7 +53,11 @@ def run(rep, prog, tier):
     table = {k: (kn, vn) for k, kn, vn in prog.table(TRM, 'circuit_translator_map')}
     # ---- exhaustiveness: symbol classes defined in Elements.py
     classes = [n for n, c in em.defs.items() if isinstance(c, ast.ClassDef)]
-    symbol_like = [n for n in classes if n not in ('SwitchState', 'SimpleCircuitElement', 'Schematic')]
+    def drawable(c):
+        # a symbol is a schemdraw element: some class of its hierarchy derives from a schemdraw.elements class
+        return any('schemdraw.elements' in ast.unparse(b) or ast.unparse(b).split('.')[0] == 'extension' for _, cc_ in prog.mro(em, c) for b in cc_.bases)
+    symbol_like = [n for n in classes if n not in ('SwitchState', 'SimpleCircuitElement', 'Schematic') and (drawable(em.defs[n]) or n in table)]
+    if len(symbol_like) < 20: rep.error(f'only {len(symbol_like)} symbol classes recognised in Elements.py (33 confirmed)')
     for cname in symbol_like:
         if cname in UNTRANSLATABLE and cname not in table:
             rep.info(f'{cname}: {UNTRANSLATABLE[cname]}'); continue
@@ -173,108 +177,196 @@ def classes_reverse(rep, prog):
     if n < 10: rep.error(f'only {n} source symbol classes with a reversal rule found')
 
 
+def _walk_key(k):
+    yield k
+    if isinstance(k, (tuple, list, frozenset)):
+        for x in k:
+            yield from _walk_key(x)
+
+
+def _unrounded_reads(m):
+    """(good, bad) reads of `.absanchors` in a module: a read is good when the coordinate it selects is handed to round_node directly, also
+    through a local name bound to the anchor table or to the selected point"""
+    good, bad = 0, []
+    for fn in [n for n in ast.walk(m.tree) if isinstance(n, (ast.FunctionDef, ast.Lambda))]:
+        parents = {}
+        for n in ast.walk(fn):
+            for ch in ast.iter_child_nodes(n): parents[id(ch)] = n
+        own = [n for n in ast.walk(fn) if isinstance(n, ast.Attribute) and n.attr == 'absanchors'
+               and not any(isinstance(x, (ast.FunctionDef, ast.Lambda)) and x is not fn and any(y is n for y in ast.walk(x)) for x in ast.walk(fn))]
+        def consumed(n, depth=0):
+            """is the value of expression n rounded before any other use?"""
+            p = parents.get(id(n))
+            if isinstance(p, ast.Subscript) and p.value is n and isinstance(p.ctx, ast.Load): return consumed(p, depth)
+            if isinstance(p, ast.Call) and n in p.args and ast.unparse(p.func).split('.')[-1] == 'round_node': return True
+            if isinstance(p, ast.Call) and isinstance(p.func, ast.Attribute) and p.func.value is n and p.func.attr == 'get': return consumed(p, depth)
+            if isinstance(p, ast.Assign) and p.value is n and len(p.targets) == 1 and isinstance(p.targets[0], ast.Name) and depth < 3:
+                name = p.targets[0].id
+                uses = [x for x in ast.walk(fn) if isinstance(x, ast.Name) and x.id == name and isinstance(x.ctx, ast.Load)]
+                stores = [x for x in ast.walk(fn) if isinstance(x, ast.Name) and x.id == name and isinstance(x.ctx, ast.Store)]
+                return len(stores) == 1 and bool(uses) and all(consumed(u, depth + 1) for u in uses)
+            return False
+        for n in own:
+            if consumed(n): good += 1
+            else: bad.append(n)
+    return good, bad
+
+
 def rounding(rep, prog):
+    from ..terms import compare_comps
     pm = prog.mod(PAR); em = prog.mod(ELM)
-    # reads of absanchors in the parser / translator modules must be wrapped by round_node or go through get_nodes
+    ELMREF = Ref('module', em, None, ELM)
+    # reads of absanchors in the parser / translator modules must be rounded by round_node (or go through get_nodes)
     bad = []; good = 0
     for m in (pm, prog.mod('SimpleCircuit.DiagramTranslator')):
-        parents = {}
-        for n in ast.walk(m.tree):
-            for ch in ast.iter_child_nodes(n): parents[id(ch)] = n
-        for n in ast.walk(m.tree):
-            if isinstance(n, ast.Attribute) and n.attr == 'absanchors':
-                p = parents.get(id(n)); pp = parents.get(id(p)) if p is not None else None
-                wrapped = isinstance(pp, ast.Call) and ast.unparse(pp.func).split('.')[-1] == 'round_node'
-                if wrapped: good += 1
-                else: bad.append((m, n))
+        g_, b_ = _unrounded_reads(m)
+        good += g_; bad += [(m, n) for n in b_]
     for m, n in bad:
         rep.ob('R13.round', f'{m.short}:absanchors@{_fn_of(m, n)}', False, 'terminal coordinate read without rounding: coincident terminals may be seen as distinct nodes', prog.site(m, n))
-    rep.ob('R13.round', 'parser:rounded-reads', True if good >= 4 and not bad else (None if good < 4 else False), f'{good} coordinate reads, all through round_node')
-    # round_node: same ndigits for x and y
+    uses_get_nodes = any(isinstance(n, ast.Call) and ast.unparse(n.func).split('.')[-1] == 'get_nodes' for n in ast.walk(pm.tree))
+    rep.ob('R13.round', 'parser:rounded-reads', False if bad else (True if good >= 1 or uses_get_nodes else None), f'{good} coordinate reads, all through round_node')
+    # round_node: same ndigits for x and y -- read off the value it returns
     f = prog.func(ELM, 'round_node')
     ev = Evaluator(prog)
-    ev.opaque_classes |= set()
-    calls = [n for n in ast.walk(f.node) if isinstance(n, ast.Call) and ast.unparse(n.func) == 'round']
-    inner = [n for n in ast.walk(f.node) if isinstance(n, ast.FunctionDef) and n is not f.node]
-    ret = [r for r in ast.walk(f.node) if isinstance(r, ast.Return)]
-    src = ast.unparse(f.node)
-    both = 'node.x' in src and 'node.y' in src
-    one_rounder = len(calls) == 1 and len(inner) == 1 or (len(calls) == 2 and ast.dump(calls[0].keywords[0].value if calls[0].keywords else calls[0].args[1]) == ast.dump(calls[1].keywords[0].value if calls[1].keywords else calls[1].args[1]))
-    rep.ob('R13.round', 'round_node:same-digits', bool(both and one_rounder), 'x and y are rounded by one and the same rule', f.site)
+    t = call_ref(ev, em, f.node, [A('node')])
+    rounds = {}
+    for k in _walk_key(tkey(t)):
+        if isinstance(k, tuple) and len(k) >= 2 and k[0] == 'round':
+            for co in ('x', 'y'):
+                if k[1] == tkey(ev.getattr(A('node'), co, em, 0)): rounds.setdefault(co, set()).add(k[2:])
+    raw = [co for co in ('x', 'y') if any(k == ('.', 'node', co) for k in _walk_key(tkey(t))) and co not in rounds]
+    if set(rounds) == {'x', 'y'} and all(len(v) == 1 for v in rounds.values()):
+        oks = rounds['x'] == rounds['y']
+    elif rounds and (raw or len(rounds) == 1): oks = False
+    else: oks = None
+    rep.ob('R13.round', 'round_node:same-digits', oks, f'x and y are rounded by one and the same rule: {t!r:.120}', f.site)
     g = prog.func(ELM, 'get_nodes')
-    okg = 'round_node(element.absanchors[' in ast.unparse(g.node)
-    rep.ob('R13.round', 'get_nodes:rounded', okg, 'get_nodes rounds every anchor it returns', g.site)
+    ev = Evaluator(prog); ev.opaque_fns.add((ELM, 'round_node'))
+    t = call_ref(ev, em, g.node, [A('element')])
+    leaves = [l for _, l in paths_of(t)]
+    def rounded_list(l):
+        if isinstance(l, (list, tuple)):
+            if all(isinstance(x, Poly) and isinstance(x.as_atom(), tuple) and x.as_atom()[:2] == ('call', ('fn', 'round_node')) for x in l): return True
+            return False if l and not any(has_opaque(x) for x in l) else (True if not l else None)
+        if isinstance(l, Comp):
+            at = l.elt.as_atom() if isinstance(l.elt, Poly) else None
+            return True if isinstance(at, tuple) and at[:2] == ('call', ('fn', 'round_node')) else (None if has_opaque(l.elt) else False)
+        return None
+    vs = [rounded_list(l) for l in leaves]
+    okg = False if any(v is False for v in vs) else (None if any(v is None for v in vs) or not vs else True)
+    rep.ob('R13.round', 'get_nodes:rounded', okg, f'get_nodes rounds every anchor it returns: {t!r:.120}', g.site)
     # terminal -> label goes through the equipotential map
     cls = pm.defs.get('SchematicDiagramParser')
-    gi = next((x for x in cls.body if isinstance(x, ast.FunctionDef) and x.name == '_get_node_index'), None) if isinstance(cls, ast.ClassDef) else None
-    from ..prog import returned_expr
-    rgi = returned_expr(gi) if gi is not None else None
-    argn = gi.args.args[1].arg if gi is not None and len(gi.args.args) > 1 else 'node'
-    okl = rgi is not None and ast.unparse(rgi).replace(' ', '') == f'self.node_label_mapping[self.unique_node_mapping[{argn}]]'
-    rep.ob('R13.round', '_get_node_index', okl, 'label = node_label_mapping[unique_node_mapping[node]]', prog.site(pm, gi or cls))
-    gl = next((x for x in cls.body if isinstance(x, ast.FunctionDef) and x.name == 'ground_label'), None)
-    rgl = returned_expr(gl) if gl is not None else None
-    okgl = rgl is not None and ast.unparse(rgl).replace(' ', '') == 'self._get_node_index(self.ground)'
-    rep.ob('R13.round', 'ground_label', okgl, 'ground label looked up through the same map', prog.site(pm, gl or cls))
+    def method(name):
+        mem = prog.find_member(pm, cls, name) if isinstance(cls, ast.ClassDef) else None
+        return mem[:2] if mem else None
+    def parser_ev():
+        ev = Evaluator(prog); ev.opaque_fns.add((ELM, 'get_nodes')); ev.opaque_fns.add((ELM, 'round_node'))
+        return ev
+    gi = method('_get_node_index')
+    okl = None
+    if gi:
+        ev = parser_ev()
+        t = ev.call_fn(gi[1], gi[0], [A('self'), A('node')], {}, {'__parent__': None}, 1)
+        sp = spec(ev, 'self.node_label_mapping[self.unique_node_mapping[node]]', {'self': A('self'), 'node': A('node')}, pm)
+        okl = compare_terms(t, sp)
+    rep.ob('R13.round', '_get_node_index', okl, 'label = node_label_mapping[unique_node_mapping[node]]', prog.site(pm, gi[1] if gi else cls))
+    gl = method('ground_label')
+    okgl = None
+    if gl and gi:
+        ev = parser_ev()
+        t = ev.call_fn(gl[1], gl[0], [A('self')], {}, {'__parent__': None}, 1)
+        sp1 = spec(ev, 'self._get_node_index(self.ground)', {'self': A('self')}, pm)
+        sp2 = spec(ev, 'self.node_label_mapping[self.unique_node_mapping[self.ground]]', {'self': A('self')}, pm)
+        c1, c2 = compare_terms(t, sp1), compare_terms(t, sp2)
+        okgl = True if True in (c1, c2) else (False if False in (c1, c2) else None)
+    rep.ob('R13.round', 'ground_label', okgl, 'ground label looked up through the same map', prog.site(pm, gl[1] if gl else cls))
     tm = prog.mod('SimpleCircuit.DiagramTranslator')
     tc = tm.defs.get('DiagramTranslator')
-    src = ast.unparse(tc) if tc is not None else ''
-    okt = 'map(self.diagram_parser._get_node_index, elm.get_nodes(element))' in src
+    okt = None
+    mem = prog.find_member(tm, tc, '__call__') if isinstance(tc, ast.ClassDef) else None
+    if mem:
+        ev = Evaluator(prog); ev.opaque_fns.add((ELM, 'get_nodes'))
+        selfv = Rec('DiagramTranslator', {'diagram_parser': A('parser'), 'translator_map': A('tmap')}, (tm, tc))
+        t = ev.call_fn(mem[1], mem[0], [selfv, A('element')], {}, {'__parent__': None}, 1)
+        sp = spec(ev, 'tuple(parser._get_node_index(p) for p in elm.get_nodes(element))', {'parser': A('parser'), 'element': A('element'), 'elm': ELMREF}, tm)
+        vs = []
+        for _, l in paths_of(t):
+            at = l.as_atom() if isinstance(l, Poly) else None
+            if isinstance(at, tuple) and at[0] == 'call' and len(at) == 4 and len(at[2]) == 2 and not at[3] and at[2][0] == tkey(A('element')):
+                vs.append(at[2][1] == tkey(sp))
+            else: vs.append(None)
+        okt = None if not vs or any(v is None for v in vs) else all(vs)
     rep.ob('R13.round', 'translator:terminal-labels', okt, 'terminals of every symbol are labelled through _get_node_index(get_nodes(element))', prog.site(tm, tc) if tc is not None else '')
     # wires: exactly Line (not subclasses) carry connectivity
-    le = next((x for x in cls.body if isinstance(x, ast.FunctionDef) and x.name == 'line_elements'), None)
-    okw = False
-    if le is not None:
-        for cpn in ast.walk(le):
-            if isinstance(cpn, ast.comprehension) and isinstance(cpn.target, ast.Name):
-                for f_ in cpn.ifs:
-                    if (isinstance(f_, ast.Compare) and isinstance(f_.ops[0], ast.Is) and isinstance(f_.left, ast.Call) and ast.unparse(f_.left.func) == 'type'
-                            and ast.unparse(f_.left.args[0]) == cpn.target.id and ast.unparse(f_.comparators[0]).split('.')[-1] == 'Line'): okw = True
-    rep.ob('R13.round', 'wires', okw, 'wires are exactly the elements of type Line', prog.site(pm, le or cls))
+    le = method('line_elements')
+    okw = None
+    if le:
+        ev = parser_ev()
+        t = ev.call_fn(le[1], le[0], [A('self')], {}, {'__parent__': None}, 1)
+        sp = spec(ev, '[e for e in self.all_elements if type(e) is elm.Line]', {'self': A('self'), 'elm': ELMREF}, pm)
+        okw = compare_comps(t, sp) if isinstance(t, Comp) else None
+    rep.ob('R13.round', 'wires', okw, 'wires are exactly the elements of type Line', prog.site(pm, le[1] if le else cls))
     # closure: fixpoint loop over wires adds both directions
-    cl = next((x for x in cls.body if isinstance(x, ast.FunctionDef) and x.name == '_get_equal_electrical_potential_nodes'), None)
-    okc = False
+    clm = method('_get_equal_electrical_potential_nodes')
+    cl = clm[1] if clm else None
+    okc = None
     if cl is not None:
-        has_while = any(isinstance(n, ast.While) for n in ast.walk(cl))
-        pair = None
-        for n in ast.walk(cl):
-            if isinstance(n, ast.Assign) and isinstance(n.targets[0], ast.Tuple) and len(n.targets[0].elts) == 2 and isinstance(n.value, ast.Call) and ast.unparse(n.value.func).split('.')[-1] == 'get_nodes':
-                pair = tuple(e.id for e in n.targets[0].elts if isinstance(e, ast.Name))
+        whiles = [n for n in ast.walk(cl) if isinstance(n, ast.While)]
         dirs = set()
         for n in ast.walk(cl):
-            if isinstance(n, ast.If) and isinstance(n.test, ast.Compare) and isinstance(n.test.ops[0], ast.In) and isinstance(n.test.left, ast.Name):
-                adds = [ast.unparse(c_.args[0]) for c_ in ast.walk(ast.Module(body=n.body, type_ignores=[])) if isinstance(c_, ast.Call) and isinstance(c_.func, ast.Attribute) and c_.func.attr == 'add' and c_.args]
-                for a_ in adds: dirs.add((n.test.left.id, a_))
-        okc = bool(has_while and pair and len(pair) == 2 and (pair[0], pair[1]) in dirs and (pair[1], pair[0]) in dirs)
-    rep.ob('R13.round', 'closure', okc, 'equipotential closure iterates to a fixpoint and follows wires in both directions', prog.site(pm, cl or cls))
+            if isinstance(n, ast.If) and isinstance(n.test, ast.Compare) and len(n.test.ops) == 1 and isinstance(n.test.ops[0], ast.In) and isinstance(n.test.left, ast.Name):
+                setname = ast.unparse(n.test.comparators[0])
+                for c_ in ast.walk(ast.Module(body=n.body, type_ignores=[])):
+                    if isinstance(c_, ast.Call) and isinstance(c_.func, ast.Attribute) and c_.func.attr == 'add' and len(c_.args) == 1 and isinstance(c_.args[0], ast.Name) and ast.unparse(c_.func.value) == setname:
+                        dirs.add((n.test.left.id, c_.args[0].id, setname, any(any(y is n for y in ast.walk(w)) for w in whiles)))
+        both = [(a_, b_) for a_, b_, s_, w_ in dirs if (b_, a_, s_, w_) in dirs and a_ != b_]
+        if both: okc = all(w_ for a_, b_, s_, w_ in dirs if (a_, b_) in both)
+        elif dirs: okc = False
+    rep.ob('R13.round', 'closure', okc, 'equipotential closure iterates to a fixpoint and follows wires in both directions' if okc is not False else
+           ('the closure follows wires in one direction only' if dirs and not both else 'the closure is not iterated to a fixpoint'), prog.site(pm, cl or cls))
 
 
 def labels_rule(rep, prog):
     """automatic node numbers never collide with user labels: the counter is advanced WHILE its text is a label already in use"""
+    from ..terms import compare_comps
     pm = prog.mod(PAR); cls = pm.defs.get('SchematicDiagramParser')
-    fn = next((x for x in cls.body if isinstance(x, ast.FunctionDef) and x.name == 'node_label_mapping'), None) if isinstance(cls, ast.ClassDef) else None
+    mem = prog.find_member(pm, cls, 'node_label_mapping') if isinstance(cls, ast.ClassDef) else None
+    fn = mem[1] if mem else None
     if fn is None:
         rep.ob('R13.labels', 'node_label_mapping', None, 'node_label_mapping not found'); return
     site = prog.site(pm, fn)
-    # the counter: a name that is str()-converted into a label value
-    counters = set()
-    for n in ast.walk(fn):
-        if isinstance(n, ast.Call) and ast.unparse(n.func) == 'str' and n.args and isinstance(n.args[0], ast.Name): counters.add(n.args[0].id)
+    def text_of(e):
+        """name whose text form the expression is: str(n) / f'{n}' / format(n) / '%d' % n"""
+        if isinstance(e, ast.Call) and isinstance(e.func, ast.Name) and e.func.id in ('str', 'format', 'repr') and len(e.args) == 1 and isinstance(e.args[0], ast.Name): return e.args[0].id
+        if isinstance(e, ast.JoinedStr) and len(e.values) == 1 and isinstance(e.values[0], ast.FormattedValue) and isinstance(e.values[0].value, ast.Name) and e.values[0].format_spec is None: return e.values[0].value.id
+        if isinstance(e, ast.BinOp) and isinstance(e.op, ast.Mod) and isinstance(e.left, ast.Constant) and e.left.value in ('%d', '%s', '%i') and isinstance(e.right, ast.Name): return e.right.id
+        return None
+    # the counter: a name whose text is used as a label value
+    counters = {text_of(n) for n in ast.walk(fn)} - {None}
     def is_skip_test(t, cn):
-        return any(isinstance(c_, ast.Compare) and isinstance(c_.ops[0], ast.In) and f'str({cn})' in ast.unparse(c_.left) for c_ in ast.walk(t))
+        return any(isinstance(c_, ast.Compare) and isinstance(c_.ops[0], ast.In) and text_of(c_.left) == cn for c_ in ast.walk(t))
     def increments(body, cn):
-        return any(isinstance(a, ast.AugAssign) and isinstance(a.op, ast.Add) and ast.unparse(a.target) == cn for b_ in body for a in ast.walk(b_))
+        return any((isinstance(a, ast.AugAssign) and isinstance(a.op, ast.Add) and ast.unparse(a.target) == cn) or
+                   (isinstance(a, ast.Assign) and ast.unparse(a.targets[0]) == cn and isinstance(a.value, ast.BinOp) and isinstance(a.value.op, ast.Add) and cn in (ast.unparse(a.value.left), ast.unparse(a.value.right)))
+                   for b_ in body for a in ast.walk(b_))
     verdict, why = None, 'no collision-avoiding counter loop recognised'
-    for cn in counters:
+    for cn in sorted(counters):
         whiles = [n for n in ast.walk(fn) if isinstance(n, ast.While) and is_skip_test(n.test, cn) and increments(n.body, cn)]
         ifs = [n for n in ast.walk(fn) if isinstance(n, ast.If) and is_skip_test(n.test, cn) and increments(n.body, cn)]
         if whiles: verdict, why = True, f'`{ast.unparse(whiles[0].test)}` is re-tested until the number is free'
-        elif ifs: verdict, why = False, f'the number is advanced at most once (`if {ast.unparse(ifs[0].test)}`): two consecutive numeric user labels make an automatic label collide with a user label, shorting two distinct nodes'
+        elif ifs and verdict is None: verdict, why = False, f'the number is advanced at most once (`if {ast.unparse(ifs[0].test)}`): two consecutive numeric user labels make an automatic label collide with a user label, shorting two distinct nodes'
     rep.ob('R13.labels', 'auto-numbers-skip-user-labels', verdict, why, site)
-    # user labels come from the node symbols through the equipotential map
-    src = ast.unparse(fn)
-    oku = 'self.unique_node_mapping[' in src and '.node_id' in src and 'self.node_elements' in src
-    rep.ob('R13.labels', 'user-labels', oku, 'label of a node symbol names the representative of the node it sits on', site)
+    # user labels come from the node symbols through the equipotential map: the table the numbering starts from
+    ev = Evaluator(prog); ev.opaque_fns.add((ELM, 'get_nodes')); ev.opaque_fns.add((ELM, 'round_node'))
+    t = ev.call_fn(fn, mem[0], [A('self')], {}, {'__parent__': None}, 1)
+    init = None
+    if isinstance(t, Opq) and t.k and t.k[0] == 'loop':
+        init = next((x.k[1] for x in t.k[1:] if isinstance(x, Opq) and x.k and x.k[0] == 'init' and len(x.k) == 2), None)
+    elif isinstance(t, Comp): init = t
+    sp = spec(ev, '{self.unique_node_mapping[elm.get_nodes(e)[0]]: e.node_id for e in self.node_elements}', {'self': A('self'), 'elm': Ref('module', prog.mod(ELM), None, ELM)}, pm)
+    oku = compare_comps(init, sp) if isinstance(init, Comp) else None
+    rep.ob('R13.labels', 'user-labels', oku, f'label of a node symbol names the representative of the node it sits on: {init!r:.160}', site)
 
 
 def _fn_of(m, node):
